@@ -4,7 +4,7 @@
    environment a rule-abiding server and an adversarial scheduler (callers, server timing,
    notifications, select! choice, timer expiry).  [reply_fn] is the server's reply to a request:
    universally quantified. *)
-From MPD Require Import Bytes Tables BuilderModel LoopModel LoopProofs LoopSpec LoopSpecProofs.
+From MPD Require Import Bytes Tables BuilderModel LoopModel LoopProofs LoopSpec LoopSpecProofs ServerModel DriverLoop LoopRefine LoopRefineProofs.
 Open Scope N_scope.
 
 (* for EVERY schedule the server never receives anything but noidle while it waits in idle *)
@@ -73,6 +73,41 @@ Example c05_race :
   a_replies s = [(7, rf (q_bytes q))] /\ a_pt s = PWindow.
 Proof. cbn zeta. split; [split; discriminate|]. vm_compute. auto. Qed.
 
+(* ---- the EXECUTABLE system ----
+   DriverLoop.v is the byte-level system whose printed trace the replayer compares with the real
+   client's, label by label (kind [loopm]).  For every label sequence of the fault-free fragment
+   (LoopRefine.v: single echo requests, changes, server reads, deliveries of any size, clock
+   advances, in ANY order and number) its run IS a run of the abstract system above: there is a
+   schedule of the abstract system that the relation [Rel] ties to the executable state (control
+   point, queue, the bytes on both wires as the concatenation of the abstract messages with the
+   builder parked anywhere inside the first one, the server's state), the abstract invariant holds
+   there, and the results / events in the segments are the abstract replies / deliveries. *)
+Theorem c05_exec_refines : forall cf labs gls, in_fragment cf labs gls ->
+  run_rel cf a0 gls (fst (xrun (xinit cf) labs)) (snd (xrun (xinit cf) labs)).
+Proof. exact exec_refines_abstract. Qed.
+
+(* hence the simulated server of the executable system never sees anything but noidle while idling *)
+Theorem c05_exec_legal_session : forall cf labs gls, in_fragment cf labs gls ->
+  s_violated (x_srv (fst (xrun (xinit cf) labs))) = false.
+Proof. exact exec_never_violated. Qed.
+
+(* the segments [run_loopm] prints — what the real client's trace is compared with — are the
+   renderings of the structured segments of [xrun] *)
+Theorem c05_exec_trace_text : forall cf labs gls t0, in_fragment cf labs gls ->
+  snd (run_labels (xstart cf) (b "D0" :: labs) [] [t0]) =
+  [t0; greet_text] ++ map seg_text (snd (xrun (xinit cf) labs)).
+Proof. exact exec_trace_text. Qed.
+
+(* no step of the executable system panics, and settle's fuel is never exhausted *)
+Theorem c05_exec_no_panic : forall cf labs gls, in_fragment cf labs gls ->
+  Forall (fun g => g_panic g = false) (snd (xrun (xinit cf) labs)).
+Proof. exact exec_no_panic. Qed.
+
+(* non-vacuity: a session of 19 labels (a change before the first request, a reply delivered in two
+   pieces, a request taken inside the re-idle window, a change reported after the window expired) *)
+Example c05_exec_fragment_inhabited : in_fragment ex_cf ex_labs ex_gls.
+Proof. exact ex_fragment. Qed.
+
 Print Assumptions c05_legal_session.
 Print Assumptions c05_idle_only_noidle.
 Print Assumptions c05_one_outstanding.
@@ -81,3 +116,7 @@ Print Assumptions c05_writes.
 Print Assumptions c05_reidle_after_event.
 Print Assumptions c05_returns_to_idle.
 Print Assumptions c05_runs_are_bounded.
+Print Assumptions c05_exec_refines.
+Print Assumptions c05_exec_legal_session.
+Print Assumptions c05_exec_trace_text.
+Print Assumptions c05_exec_no_panic.
